@@ -63,7 +63,8 @@ RULE = ("per case one configuration drawn from: optimizer in {slsqp, l-bfgs-b, n
         "object run before, the same Plan and step objects run before, an evaluator step and an unused EnsembleEvaluator on the same "
         "configuration object before, complete other runs inside the evaluator, generator-like state (np.random, scipy.stats "
         "distributions) reseeded and drawn from before the run, at every evaluation start and inside every evaluator call) and once more "
-        "with another seed; for the plain workload one BasicOptimizer object is additionally run twice.  Non-trivial = the reference made at least 3 evaluator calls of which at least 2 perturbed, and at least 8 "
+        "with another seed; twice (prioritized / appended) on a manager on which earlier runs resolved the bare method names before private "
+        "sampler and estimator plug-ins for the same methods were registered, against a fresh manager with the same registrations; for the plain workload one BasicOptimizer object is additionally run twice.  Non-trivial = the reference made at least 3 evaluator calls of which at least 2 perturbed, and at least 8 "
         "schedules were compared; distinct = distinct configurations.")
 ASSUMPTIONS = [
     "the evaluator supplied by the harness is a deterministic function of the request (checked: the replay machine reproduces the reference)",
@@ -781,6 +782,51 @@ def _private_sampler_plugin():
     return OtherSamplerPlugin()
 
 
+def _private_estimator_plugin():
+    """A function-estimator plug-in answering to the built-in method names with visibly different values."""
+    from ropt.plugins.function_estimator.default import DefaultFunctionEstimator, DefaultFunctionEstimatorPlugin
+
+    class OtherEstimator(DefaultFunctionEstimator):
+        def calculate_function(self, functions, weights):
+            return 2.0 * super().calculate_function(functions, weights) + 0.125
+
+        def calculate_gradient(self, functions, gradient, weights):
+            return 2.0 * super().calculate_gradient(functions, gradient, weights)
+
+    class OtherEstimatorPlugin(DefaultFunctionEstimatorPlugin):
+        def create(self, enopt_config, estimator_index):
+            return OtherEstimator(enopt_config, estimator_index)
+
+    return OtherEstimatorPlugin()
+
+
+def _manager_pairs(spec, mon):
+    """'Regardless of whether plug-in managers are reused': a manager on which earlier runs have already resolved the bare
+    method names of this configuration, and on which private plug-ins for the same methods are registered AFTERWARDS, must
+    behave like a fresh manager holding the same plug-ins in the same order (registered before any lookup).  Once with
+    prioritize=True (the private plug-ins take over) and once without (they stay behind the built-in ones)."""
+    from ropt.plugins import PluginManager
+    out = []
+    for prioritize in (True, False):
+        def register(manager):
+            manager.add_plugin("sampler", "c16late", _private_sampler_plugin(), prioritize=prioritize)
+            if spec["estimator"] is not None:
+                manager.add_plugin("function_estimator", "c16late", _private_estimator_plugin(), prioritize=prioritize)
+        name = "plug-ins-registered-" + ("prioritized" if prioritize else "appended")
+        mon.tables_enabled = True
+        mon.begin_schedule()
+        fresh = PluginManager()
+        register(fresh)
+        a = _Run(spec, dict(_QUIET, name=name + "-on-fresh-manager"), mon).execute(_Session(fresh))
+        reused = PluginManager()
+        _Run(spec, _QUIET, mon).execute(_Session(reused))               # resolves every bare method name of the configuration
+        _Run(_variant(spec, 0), _QUIET, mon).execute(_Session(reused))
+        register(reused)
+        b = _Run(spec, dict(_QUIET, name=name + "-on-reused-manager-after-lookups"), mon).execute(_Session(reused))
+        out.append({"name": name, "a": a, "b": b})
+    return out
+
+
 _QUIET = {"name": "quiet", "reuse": "fresh", "others": 0, "pre": [], "between": [], "inside": [], "interleave": []}
 
 
@@ -885,7 +931,7 @@ def _in_process(spec, schedules, mon):
     other = json.loads(json.dumps(spec))
     other["seed"] = _other_seed(spec["seed"])
     oth = _run_schedule(other, dict(_QUIET, name="other-seed"), mon)
-    return {"runs": runs, "other_seed": {"pert": oth["pert"], "touches": oth["touches"]}}
+    return {"runs": runs, "other_seed": {"pert": oth["pert"], "touches": oth["touches"]}, "manager_pairs": _manager_pairs(spec, mon)}
 
 
 def _fresh_start(spec, name, hashseed, again=False, schedules=None):
@@ -958,14 +1004,15 @@ def run_impl(case):
         ref = a["ref"]
         runs = [b["ref"], a["again"]] + b["runs"]
         other_seed = b["other_seed"]
+        pairs = b["manager_pairs"]
         mon_points = ref.get("entry_points")
     else:                                   # all in this process (development only)
         mon = _Monitor.get()
         ref = _run_schedule(spec, dict(_QUIET, name="inproc-reference"), mon)
         both = _in_process(spec, case["schedules"], mon)
-        runs, other_seed = both["runs"], both["other_seed"]
+        runs, other_seed, pairs = both["runs"], both["other_seed"], both["manager_pairs"]
         mon_points = mon.entry_points
-    out = {"ref": ref, "runs": runs, "other_seed": other_seed, "monitor_entry_points": mon_points}
+    out = {"ref": ref, "runs": runs, "other_seed": other_seed, "manager_pairs": pairs, "monitor_entry_points": mon_points}
     if BASIC_OPTIMIZER_RERUN and spec.get("workload", "single") == "single":
         out["basic_rerun"] = _basic_optimizer_rerun(spec)
     return out
@@ -994,6 +1041,9 @@ def coq_case(case, obs):
             seg = _segments(r)
             if len(seg) >= 3:
                 twice.append("(" + cq.zs(_seg_digests(seg[0])) + ", " + cq.zs(_seg_digests(seg[2])) + ")")
+    for mp in obs.get("manager_pairs", []):
+        twice.append("(" + cq.zs(_seg_digests(mp["a"]["entries"]) + [mp["a"]["exit"]]) + ", " +
+                     cq.zs(_seg_digests(mp["b"]["entries"]) + [mp["b"]["exit"]]) + ")")
     br = obs.get("basic_rerun")
     if br is not None:
         twice.append("(" + cq.zs([_zdig(e[1]) for e in br["first"]] + [br["exit"][0]]) + ", " +
@@ -1046,6 +1096,15 @@ def oracle(case, obs):
                 again = [(e[0], e[2] if e[0] == "C" else "", e[3]) for e in seg[2]]
                 if first != again:
                     return {"clause": "same-step-run-twice-differs", "detail": {"schedule": r["name"], "lengths": [len(first), len(again)]}}
+    for mp in obs.get("manager_pairs", []):
+        for r in (mp["a"], mp["b"]):
+            if r["touches"]:
+                return {"clause": "table-state-written" if all(t.startswith("table-written") for t in r["touch_names"])
+                        else "global-generator-touched", "detail": {"schedule": r["name"], "by": r["touch_names"]}}
+        if _seg_digests(mp["a"]["entries"]) != _seg_digests(mp["b"]["entries"]) or mp["a"]["exit"] != mp["b"]["exit"]:
+            return {"clause": "reused-manager-differs-from-fresh-manager",
+                    "detail": {"registration": mp["name"], "lengths": [len(mp["a"]["entries"]), len(mp["b"]["entries"])],
+                               "exit": [mp["a"]["exit_name"], mp["b"]["exit_name"]]}}
     br = obs.get("basic_rerun")
     if br is not None and (br["first"] != br["second"] or br["exit"][0] != br["exit"][1]):
         return {"clause": "basic-optimizer-rerun-differs", "detail": {"lengths": [len(br["first"]), len(br["second"])], "exit": br["exit"]}}
@@ -1076,7 +1135,8 @@ def features(case, obs):
             "seed_clause": _seed_clause_applies(s),
             "de_seed": (s.get("de_seed_name", "seed") + ("=0" if s["de_seed"] == 0 else "=n") + ("/parallel" if s.get("parallel") else ""))
                        if s["method"] == "differential_evolution" else "-",
-            "speculative": bool(s.get("speculative")), "basic_optimizer_rerun": obs.get("basic_rerun") is not None}
+            "speculative": bool(s.get("speculative")), "manager_pairs": len(obs.get("manager_pairs", [])),
+            "private_plugin_in_force": any(mp["a"]["pert"] != obs["ref"]["pert"] for mp in obs.get("manager_pairs", [])), "basic_optimizer_rerun": obs.get("basic_rerun") is not None}
 
 
 def known_signature(case, obs, violation):
